@@ -49,6 +49,10 @@ enum Beh {
     AtMost(u64),
     NotFound,
     Invalid,
+    /// S9: the task completes with `Ok(vec![])` (the real client never does that; a foreign client could)
+    EmptyOk,
+    /// S9: the responder is dropped without an answer (worker died): a non-HeaderEx error
+    Dropped,
 }
 
 fn parse_behs(s: &str) -> Option<Vec<Beh>> {
@@ -60,6 +64,8 @@ fn parse_behs(s: &str) -> Option<Vec<Beh>> {
             "f" => Some(Beh::Full),
             "n" => Some(Beh::NotFound),
             "i" => Some(Beh::Invalid),
+            "e" => Some(Beh::EmptyOk),
+            "d" => Some(Beh::Dropped),
             _ => t.strip_prefix('p')?.parse().ok().map(Beh::AtMost),
         })
         .collect()
@@ -99,6 +105,7 @@ fn peer_resps(chain_len: u64, b: Beh, h: u64, a: u64) -> Vec<HeaderResponse> {
     let n = match b {
         Beh::NotFound => return not_found(),
         Beh::Invalid => return vec![HeaderResponse { body: vec![], status_code: StatusCode::Invalid.into() }],
+        Beh::EmptyOk | Beh::Dropped => return vec![], // not consulted: answered without the client
         Beh::Full => avail,
         Beh::AtMost(k) => avail.min(k),
     };
@@ -197,7 +204,7 @@ impl C27 {
                         }
                     }
                     Err(P2pError::HeaderEx(e)) => format!("err {} steps={j}", err_name(&e)),
-                    Err(e) => format!("err Fatal:{} steps={j}", err_name(&e)),
+                    Err(_) => format!("err Fatal steps={j}"),
                 });
             }
             if j >= fuel {
@@ -211,7 +218,15 @@ impl C27 {
             let (h, a, tx) = outstanding.remove(idx);
             let b = if behs.is_empty() { Beh::Full } else { behs[(j % behs.len() as u64) as usize] };
             let req = HeaderRequest { data: Some(Data::Origin(h)), amount: a };
-            let _ = tx.send(client_answer(chain_len, b, &req));
+            match b {
+                Beh::Dropped => drop(tx),
+                Beh::EmptyOk => {
+                    let _ = tx.send(Ok(vec![]));
+                }
+                _ => {
+                    let _ = tx.send(client_answer(chain_len, b, &req));
+                }
+            }
             j += 1;
         }
     }
@@ -224,7 +239,8 @@ impl Prop for C27 {
     fn rule(&self) -> &'static str {
         "One op = one complete call of the real P2p::get_verified_headers_range against a simulated header-ex client \
          (real is_valid gate + real decode_and_verify_responses over real encoded headers of a 720-header chain), \
-         hand-polled, with the answering order and the per-answer peer behaviour (full / at most k / NOT_FOUND / INVALID) \
+         hand-polled, with the answering order and the per-answer peer behaviour (full / at most k / NOT_FOUND / INVALID; S9: `Ok(vec![])` handed \
+         to the session directly, and a dropped responder = non-HeaderEx error) \
          given by cyclic patterns in the op and a step budget that turns a hang into the outcome `hang`. Amounts 0, \
          1..600 (quick: a sample; thorough: every amount) served fully and by truncating-but-progressing peers, amounts at and around the u64 overflow boundary for small and \
          near-i64::MAX start heights, `from` valid / invalidated / from another chain, chains shorter than the request. \
@@ -316,6 +332,52 @@ impl Prop for C27 {
                     true,
                 );
             }
+        }
+        // S9: empty-but-successful answers (`Ok(vec![])`: nothing stored, the same request rescheduled) mixed with
+        // answers that deliver, alone (never finishes), and a dropped responder (non-HeaderEx error: `run` returns it)
+        // after 0.. answered requests
+        for k in 0..(if thorough { 300 } else { 48 }) {
+            let from = rng.range(1, 60);
+            let amount = rng.range(1, 300);
+            let fuel = rng.range(20, 400);
+            let (behs, tag): (Vec<String>, &str) = match k % 4 {
+                0 => {
+                    let mut v: Vec<String> = (0..rng.range(1, 5))
+                        .map(|_| match rng.below(4) {
+                            0 => "e".to_string(),
+                            1 => format!("p{}", rng.range(1, 40)),
+                            _ => "f".to_string(),
+                        })
+                        .collect();
+                    v.insert(rng.usize(0, v.len()), "e".into());
+                    (v, "empty-ok-mixed")
+                }
+                1 => {
+                    let mut v: Vec<String> = (0..rng.range(0, 4))
+                        .map(|_| match rng.below(5) {
+                            0 => "n".to_string(),
+                            1 => "i".to_string(),
+                            2 => "e".to_string(),
+                            _ => "f".to_string(),
+                        })
+                        .collect();
+                    v.insert(rng.usize(0, v.len()), "d".into());
+                    (v, "dropped-responder")
+                }
+                2 => (vec!["e".into()], "empty-ok-only"),
+                _ => {
+                    // the responder of the (n+1)-th answered request is dropped
+                    let n = rng.usize(0, 12);
+                    let mut v = vec!["f".to_string(); n];
+                    v.push("d".into());
+                    (v, "dropped-responder")
+                }
+            };
+            out.op(
+                format!("gvr from={from} fromkind=ok amount={amount} chain={CHAIN} order={} beh={} fuel={fuel}", pat(rng), behs.join(",")),
+                tag,
+                true,
+            );
         }
         if !pool().high.is_empty() {
             for _ in 0..(if thorough { 40 } else { 8 }) {
